@@ -10,7 +10,19 @@ import (
 	"go.uber.org/thriftrw/wire"
 )
 
-func curType() *Type { return TypeAt(verifParam("type")) }
+// curType selects the type under test. It also dirties the codec's object
+// pools the way a busy process would: a random-access decode leaves a
+// StreamReader in the pool that was last used over a seekable source.
+func curType() *Type {
+	warmPools()
+	return TypeAt(verifParam("type"))
+}
+
+func warmPools() {
+	binary.Default.Decode(bytes.NewReader([]byte{0x02, 0x00, 0x01, 0x01, 0x00}), wire.TStruct)
+	var buf bytes.Buffer
+	binary.Default.Encode(wire.NewValueStruct(wire.Struct{}), &buf)
+}
 
 func encodeStream(v Codec) ([]byte, error) {
 	var buf bytes.Buffer
@@ -187,6 +199,75 @@ func H04b() {
 		}
 	}
 	compareDecoders(t, b)
+	verifReached("end")
+}
+
+// chunky is a non-seekable reader whose first `free` reads return an
+// arbitrary count >= 1 (or, once, zero); later reads are maximal.
+type chunky struct {
+	b     []byte
+	off   int
+	zeros int
+	free  int
+}
+
+func (r *chunky) Read(p []byte) (int, error) {
+	if len(p) == 0 {
+		return 0, nil
+	}
+	if r.off >= len(r.b) {
+		return 0, io.EOF
+	}
+	max := len(r.b) - r.off
+	if len(p) < max {
+		max = len(p)
+	}
+	k := max
+	if r.free != 0 {
+		if r.free > 0 {
+			r.free--
+		}
+		lo := 1
+		if r.zeros > 0 {
+			lo = 0
+		}
+		k = lo + verifChoice(max-lo+1)
+		if k == 0 {
+			r.zeros--
+			return 0, nil
+		}
+	}
+	copy(p[:k], r.b[r.off:r.off+k])
+	r.off += k
+	return k, nil
+}
+
+// H04c: read segmentation. An evolved encoding (an unknown field of a
+// fixed-width or nested shape in front, which the streaming path must skip)
+// decoded from a stream whose first reads are arbitrarily segmented gives
+// what the value path gives.
+func H04c() {
+	t := curType()
+	ConcreteLeaves = true
+	v := t.Any(verifParam("depth"))
+	ConcreteLeaves = false
+	verifAssume(t.Valid(v))
+	tree := t.Tree(v)
+	id := int16(30000)
+	for _, fid := range t.FieldIDs {
+		verifAssume(fid != id)
+	}
+	insertField(tree, 0, id, foreign(verifChoice(nForeign)))
+	b := SpecEncode(tree, nil)
+	y, ey := decodeWire(t, b)
+	x := t.Fresh()
+	sr := binary.Default.Reader(&chunky{b: b, zeros: 1, free: verifParam("free")})
+	ex := x.Decode(sr)
+	sr.Close()
+	verifAssert((ex == nil) == (ey == nil), "segmented-stream-agrees-on-acceptance")
+	if ex == nil && ey == nil {
+		verifAssert(Eq(t.Tree(x), t.Tree(y)) == 1, "segmented-stream-equals-wire")
+	}
 	verifReached("end")
 }
 
@@ -531,6 +612,45 @@ func H14t() {
 		verifAssert(t.Equals(x, z), "transitive")
 	}
 	verifAssert(true, "no-panic")
+	verifReached("end")
+}
+
+// HBig: two values above the 1 MiB threshold in one message (a separate code
+// path in the binary reader) come back intact through both deserializers.
+// Contents are a fixed pattern except for a few symbolic bytes.
+func HBig() {
+	warmPools()
+	t := TypeByName("vcore.Big")
+	const l = 1<<20 + 1
+	mk := func(seed int) []byte {
+		b := make([]byte, l)
+		for i := range b {
+			b[i] = byte(i*seed + 1)
+		}
+		b[0], b[l/2], b[l-1] = verifByte(), verifByte(), verifByte()
+		return b
+	}
+	a, b := mk(3), mk(5)
+	tree := Struct()
+	tree.AddField(1, Bin(a))
+	tree.AddField(2, Bin(b))
+	ref := SpecEncode(tree, nil)
+	check := func(x Codec, err error, label string) {
+		verifAssert(err == nil, label+"-decodes")
+		got := t.Tree(x)
+		verifAssert(len(got.Kids) == 2 && len(got.Kids[0].B) == l && len(got.Kids[1].B) == l, label+"-lengths")
+		ga, gb := got.Kids[0].B, got.Kids[1].B
+		var d byte
+		for _, i := range []int{0, 1, l / 2, l - 2, l - 1} {
+			d |= ga[i] ^ a[i]
+			d |= gb[i] ^ b[i]
+		}
+		verifAssert(d == 0, label+"-contents")
+	}
+	x, ex := decodeStream(t, ref, false)
+	check(x, ex, "big-stream")
+	y, ey := decodeWire(t, ref)
+	check(y, ey, "big-wire")
 	verifReached("end")
 }
 
